@@ -14,7 +14,8 @@ META = {
         "figure. R3: the plain and PDF formatters never Display a Decimal directly, only through the shared cgt-format "
         "helpers. R4 (formats): dates are printed with %d/%m/%Y, tax years as {}/{:02} of (start+1) % 100, GBP through "
         "one helper called with '£' and 2 decimals, negatives as -£. R5 (exact quantities): in the derived serializers of the report "
-        "model no quantity / amount / ratio field goes through a serialize_with (rounding) helper. Does not analyse the Typst template's own arithmetic "
+        "model no quantity / amount / ratio field goes through a serialize_with (rounding) helper. R6: a field of a front-end structure (MCP explain) "
+        "that is named like a report-model field is filled from that field. Does not analyse the Typst template's own arithmetic "
         "(no Typst analyser available) and does not compare rendered outputs."),
     "trusted_base": ["rust_decimal: round_dp is MidpointNearestEven; round_dp_with_strategy honours the strategy",
                      "core::fmt template encoding", "the Typst template (report.typ) is outside the analysis"],
@@ -217,9 +218,55 @@ def exact_quantities(F, rep):
         rep.unresolved("R5", "quantity-fields", f"only {n} quantity/ratio fields found in derived serializers of the report model")
 
 
+def same_named_figures(F, rep):
+    """R6 (the same figure under the same name): a front-end that re-packages the report into its own structures (the MCP explain
+    tool) fills a field that carries the NAME of a report-model field from that very field: `proceeds` from `disposal.proceeds`
+    (net of fees, what every other front-end shows), not from `gross_proceeds`; `allowable_cost` from `allowable_cost`, … Decided
+    on the aggregates of front-end ADTs: the report-model fields read by the term of field f, when f is itself a report-model
+    field name, must include f."""
+    model_fields = set()
+    for b in F.bodies.values():
+        if b.crate != "cgt_core":
+            continue
+        for i, si, s in b.assigns():
+            rv = s["rv"]
+            if rv["k"] == "agg" and rv["adt"] in ("cgt_core::models::Disposal", "cgt_core::models::Match", "cgt_core::models::TaxYearSummary"):
+                model_fields.update(rv["fields"])
+    if len(model_fields) < 8:
+        rep.unresolved("R6", "report-model", f"only {len(model_fields)} report-model field names found")
+        return
+    n = 0
+    for b in F.bodies.values():
+        if b.crate not in ("cgt_mcp", "cgt_wasm") or not P.user_written(F, b):
+            continue
+        tb = None
+        for i, si, s in b.assigns():
+            rv = s["rv"]
+            if rv["k"] != "agg" or not rv["adt"].startswith(("cgt_mcp::", "cgt_wasm::")) or not rv.get("fields"):
+                continue
+            tb = tb or Terms(F, b, inline_depth=1)
+            for fname, op in zip(rv["fields"], rv["ops"]):
+                if fname not in model_fields:
+                    continue
+                term = tb.operand(op)
+                reads = {x[2] for x in subterms(term) if isinstance(x, tuple) and len(x) == 3 and x[0] == "field" and x[2] in model_fields}
+                if not reads:
+                    continue
+                n += 1
+                ok = fname in reads
+                owner = rv["adt"].split("::")[-1]
+                rep.ob("R6", f"{owner}.{fname}", ok, f"`{fname}` is taken from the report's `{fname}`" if ok else
+                       f"{owner}.{fname} is filled from the report's {sorted(reads)}: the tool shows another figure under the name the other "
+                       f"front-ends use for `{fname}`", b.loc(s["sp"]), key=f"R6:{owner}.{fname}")
+    rep.count("front_end_fields_named_like_the_report", n)
+    if n < 4:
+        rep.unresolved("R6", "front-end-structs", f"only {n} front-end fields named like report-model fields found (MCP explain structures expected)")
+
+
 def run(ctx, rep):
     F = ctx.F
     exact_quantities(F, rep)
+    same_named_figures(F, rep)
     n = rounding(F, rep)
     if n < 3:
         rep.unresolved("R1", "rounding-sites", f"only {n} rounding calls found in presentation code")
